@@ -607,15 +607,42 @@ func endingOps(k *kase, m *model) []op {
 	return nil
 }
 
-// runCase executes the case on a fresh cache and the model and returns the first divergence.
-func runCase(k *kase, st *stats, visit func(uint64)) *vio {
+// session is one cache under test together with its model. A case may be run on a cache that has run other
+// cases before, provided each of them ended with Clear (the model is then empty again); hist is everything the cache
+// has executed so far.
+type session struct {
+	k    kase // configuration (Variant, Cap, NilCB); Ops unused
+	s    *sut
+	m    *model
+	e    expect
+	prev []entry
+	hist []op
+	uses int
+}
+
+func newSession(k *kase) (*session, *vio) {
 	s, err := newSUT(k)
 	if err != nil || s == nil {
-		return &vio{sig: "lru/" + k.Variant + "/constructor/rejects-valid", what: fmt.Sprintf("constructor(maxSize=%d, create!=nil, nil callback=%v) returned %v", k.Cap, k.NilCB, err)}
+		return nil, &vio{sig: "lru/" + k.Variant + "/constructor/rejects-valid", what: fmt.Sprintf("constructor(maxSize=%d, create!=nil, nil callback=%v) returned %v", k.Cap, k.NilCB, err)}
 	}
-	m := &model{cap: k.Cap, order: make([]entry, 0, k.Cap+1)}
-	var e expect
+	return &session{k: *k, s: s, m: &model{cap: k.Cap, order: make([]entry, 0, k.Cap+1)}}, nil
+}
+
+// runCase executes the case on a fresh cache and the model and returns the first divergence.
+func runCase(k *kase, st *stats, visit func(uint64)) *vio {
+	ss, v := newSession(k)
+	if v != nil {
+		return v
+	}
+	return ss.run(k, st, visit)
+}
+
+// run executes k.Ops and the ending on the session's cache; the step index of a divergence counts from k.Ops[0].
+func (ss *session) run(k *kase, st *stats, visit func(uint64)) *vio {
+	s, m := ss.s, ss.m
+	e := &ss.e
 	pre := "lru/" + k.Variant + "/"
+	ss.uses++
 
 	step := func(o op, idx int) *vio {
 		if !m.legal(k.Variant, o) {
@@ -627,17 +654,20 @@ func runCase(k *kase, st *stats, visit func(uint64)) *vio {
 		if visit != nil {
 			code = m.code(k, o, 0)
 		}
-		m.apply(o, pk, &e)
+		ss.prev = append(ss.prev[:0], m.order...)
+		m.apply(o, pk, e)
 		if k.NilCB {
 			e.deletes = e.deletes[:0] // no callback installed, nothing can be recorded
 		}
 		fail := func(aspect, what string) *vio {
+			before := model{order: ss.prev}
 			return &vio{
 				sig:  pre + opSigName(o.K) + "[" + clsNames[e.class] + "]/" + aspect,
-				what: fmt.Sprintf("step %d %s (key %q, capacity %d, model before the call %s): %s", idx, o, pk, k.Cap, modelBefore(k, idx), what),
+				what: fmt.Sprintf("step %d %s (key %q, capacity %d, model before the call %s): %s", idx, o, pk, k.Cap, before.show(), what),
 				step: idx,
 			}
 		}
+		ss.hist = append(ss.hist, o)
 		s.creates, s.deletes = s.creates[:0], s.deletes[:0]
 		st.ops++
 		st.cls[e.class]++
@@ -759,27 +789,6 @@ func runCase(k *kase, st *stats, visit func(uint64)) *vio {
 	return nil
 }
 
-// modelBefore re-runs the model alone up to (not including) step idx and prints its state; used for messages only.
-func modelBefore(k *kase, idx int) string {
-	m := &model{cap: k.Cap}
-	var e expect
-	do := func(o op) {
-		if m.legal(k.Variant, o) {
-			m.apply(o, pkName(k.Variant, o.Key, o.Alt), &e)
-		}
-	}
-	for i := 0; i < idx && i < len(k.Ops); i++ {
-		do(k.Ops[i])
-	}
-	if idx > len(k.Ops) {
-		end := endingOps(k, m)
-		for j := 0; j < idx-len(k.Ops) && j < len(end); j++ {
-			do(end[j])
-		}
-	}
-	return m.show()
-}
-
 func opSigName(k opKind) string {
 	switch k {
 	case opGet, opGetFail:
@@ -823,10 +832,11 @@ func alphabet(variant string, keys int) []op {
 	return a
 }
 
-// walk enumerates every legal extension of ops (state m) up to length upto and calls leaf for each.
-func walk(variant string, alpha []op, ops []op, m *model, upto int, leaf func(ops []op, m *model)) {
-	if len(ops) == upto {
-		leaf(ops, m)
+// walk enumerates every legal extension of ops (state m) up to length upto and calls node for every sequence on
+// the way (the starting one included).
+func walk(variant string, alpha []op, ops []op, m *model, upto int, node func(ops []op, m *model)) {
+	node(ops, m)
+	if len(ops) >= upto {
 		return
 	}
 	var e expect
@@ -836,17 +846,20 @@ func walk(variant string, alpha []op, ops []op, m *model, upto int, leaf func(op
 		}
 		mm := m.clone()
 		mm.apply(o, "", &e)
-		walk(variant, alpha, append(ops, o), &mm, upto, leaf)
+		walk(variant, alpha, append(ops, o), &mm, upto, node)
 	}
 }
 
+// config is one enumerated configuration: every legal sequence of length depthClear is run with the Clear ending and
+// every legal sequence of length depthDrain with the draining ending (0 = not used). Every prefix of a sequence is
+// checked call by call on the way, so only the endings distinguish the lengths.
 type config struct {
-	variant string
-	nilcb   bool
-	cap     int
-	keys    int
-	depth   int
-	ends    []string
+	variant    string
+	nilcb      bool
+	cap        int
+	keys       int
+	depthClear int
+	depthDrain int
 }
 
 func (c config) String() string {
@@ -857,6 +870,8 @@ func (c config) String() string {
 	return fmt.Sprintf("%s%s cap=%d keys=%d", c.variant, n, c.cap, c.keys)
 }
 
+func (c config) maxDepth() int { return max(c.depthClear, c.depthDrain) }
+
 // the enumerated configurations and their depth bounds
 func configs(thorough bool) []config {
 	var cs []config
@@ -866,26 +881,25 @@ func configs(thorough bool) []config {
 		}
 		return q
 	}
-	both := []string{endClear, endDrain}
 	for c := 1; c <= 4; c++ {
 		keys := 3
 		if c == 4 {
 			keys = 4
 		}
 		// alphabet sizes: cache 3k+1, ecache 6k+1, expirable 4k+1 (Expire is legal only on a resident fresh key)
+		var dc, de, dx int
 		if c < 4 {
-			cs = append(cs, config{vCache, false, c, keys, pick(5, 7), both})
-			cs = append(cs, config{vECache, false, c, keys, pick(4, 6), both})
-			cs = append(cs, config{vExpirable, false, c, keys, pick(5, 7), both})
+			dc, de, dx = pick(5, 7), pick(4, 6), pick(5, 7)
 		} else {
-			cs = append(cs, config{vCache, false, c, keys, pick(5, 6), both})
-			cs = append(cs, config{vECache, false, c, keys, pick(4, 5), both})
-			cs = append(cs, config{vExpirable, false, c, keys, pick(5, 6), both})
+			dc, de, dx = pick(5, 6), pick(4, 5), pick(5, 6)
 		}
+		cs = append(cs, config{vCache, false, c, keys, dc, dc - 1})
+		cs = append(cs, config{vECache, false, c, keys, de, de - 1})
+		cs = append(cs, config{vExpirable, false, c, keys, dx, dx - 1})
 		// nil delete callback: order and residency are visible only through hits/misses, so the probing ending is used
-		cs = append(cs, config{vCache, true, c, keys, pick(4, 5), []string{endDrain}})
-		cs = append(cs, config{vECache, true, c, keys, pick(3, 4), []string{endDrain}})
-		cs = append(cs, config{vExpirable, true, c, keys, pick(4, 5), []string{endDrain}})
+		cs = append(cs, config{vCache, true, c, keys, 0, pick(4, 5)})
+		cs = append(cs, config{vECache, true, c, keys, 0, pick(3, 4)})
+		cs = append(cs, config{vExpirable, true, c, keys, 0, pick(4, 5)})
 	}
 	return cs
 }
@@ -905,6 +919,58 @@ func (c *collector) merge(local map[uint64]struct{}, st *stats) {
 	c.mu.Unlock()
 }
 
+const sessionCases = 16 // cases run back to back on one cache before a new one is made
+
+// runner runs cases of one configuration, re-using a cache for up to sessionCases cases (each case ends with Clear,
+// so the next one starts from an empty — but used — cache; the first case of a session starts from a new cache).
+type runner struct {
+	run   *report.Run
+	st    *stats
+	visit func(uint64)
+	ss    *session
+}
+
+func (r *runner) do(k *kase) (violated bool) {
+	if r.ss != nil && (r.ss.uses >= sessionCases || r.ss.k.Variant != k.Variant || r.ss.k.Cap != k.Cap || r.ss.k.NilCB != k.NilCB || len(r.ss.m.order) != 0) {
+		r.ss = nil
+	}
+	if r.ss == nil {
+		ss, v := newSession(k)
+		if v != nil {
+			r.run.Violation(v.sig, v.what, witnessOf(k, v))
+			return true
+		}
+		r.ss = ss
+	}
+	ss := r.ss
+	fresh := ss.uses == 0
+	histLen := len(ss.hist)
+	v := ss.run(k, r.st, r.visit)
+	if v == nil {
+		return false
+	}
+	r.ss = nil // the cache and the model have diverged
+	if fresh {
+		r.run.Violation(v.sig, v.what, witnessOf(k, v))
+		return true
+	}
+	// does the case alone show it on a new cache? then that is the witness
+	var scratch stats
+	if v2 := runCase(k, &scratch, nil); v2 != nil {
+		r.run.Violation(v2.sig, v2.what, witnessOf(k, v2))
+		return true
+	}
+	// it needs the history of the cache: the witness is everything this cache has executed
+	whole := kase{Variant: k.Variant, Cap: k.Cap, NilCB: k.NilCB, Keys: k.Keys, Ops: append([]op(nil), ss.hist...), End: endNone}
+	if v3 := runCase(&whole, &scratch, nil); v3 != nil {
+		r.run.Violation(v3.sig, v3.what, witnessOf(&whole, v3))
+		return true
+	}
+	v.what += fmt.Sprintf(" [on a cache that had executed %d earlier calls; not reproduced when the whole history was re-run on a new cache]", histLen)
+	r.run.Violation(v.sig+"/history-dependent", v.what, whole)
+	return true
+}
+
 func enumerateAll(run *report.Run, col *collector, cs []config) {
 	type unit struct {
 		c      config
@@ -919,22 +985,30 @@ func enumerateAll(run *report.Run, col *collector, cs []config) {
 			defer wg.Done()
 			local := map[uint64]struct{}{}
 			var st stats
-			visit := func(h uint64) { local[h] = struct{}{} }
+			r := &runner{run: run, st: &st, visit: func(h uint64) { local[h] = struct{}{} }}
 			for u := range units {
 				alpha := alphabet(u.c.variant, u.c.keys)
-				n := 0
-				vios := 0
-				walk(u.c.variant, alpha, append([]op(nil), u.prefix...), &u.m, u.c.depth, func(ops []op, _ *model) {
-					for _, end := range u.c.ends {
-						n++
-						if vios > 20 { // this unit is hopeless already; do not spend the budget on it
-							return
-						}
-						k := kase{Variant: u.c.variant, Cap: u.c.cap, NilCB: u.c.nilcb, Keys: u.c.keys, Ops: ops, End: end}
-						if v := runCase(&k, &st, visit); v != nil {
-							vios++
-							run.Violation(v.sig, v.what, witnessOf(&k, v))
-						}
+				n, vios := 0, 0
+				walk(u.c.variant, alpha, append([]op(nil), u.prefix...), &u.m, u.c.maxDepth(), func(ops []op, _ *model) {
+					end := ""
+					switch len(ops) {
+					case u.c.depthClear:
+						end = endClear
+					case u.c.depthDrain:
+						end = endDrain
+					default:
+						return
+					}
+					if vios > 20 { // this unit has reported enough; do not spend the budget on it
+						return
+					}
+					n++
+					k := kase{Variant: u.c.variant, Cap: u.c.cap, NilCB: u.c.nilcb, Keys: u.c.keys, Ops: ops, End: end}
+					if r.do(&k) {
+						vios++
+					}
+					if n&0xfff == 1 && run.SampleN() < 2 {
+						run.Sample(fmt.Sprintf("%s ops=%v ending=%s", u.c, ops, end))
 					}
 				})
 				run.Eval(n)
@@ -945,19 +1019,19 @@ func enumerateAll(run *report.Run, col *collector, cs []config) {
 	bounds := map[string]any{}
 	for _, c := range cs {
 		alpha := alphabet(c.variant, c.keys)
-		bounds[c.String()] = map[string]any{"depth": c.depth, "alphabet": len(alpha), "endings": c.ends}
+		bounds[c.String()] = map[string]any{"depth_with_clear_ending": c.depthClear, "depth_with_drain_ending": c.depthDrain, "alphabet": len(alpha)}
 		m := model{cap: c.cap}
-		pre := 2
-		if c.depth < pre {
-			pre = c.depth
-		}
+		const pre = 2 // every depth bound is > 2
 		walk(c.variant, alpha, nil, &m, pre, func(ops []op, mm *model) {
-			units <- unit{c, append([]op(nil), ops...), mm.clone()}
+			if len(ops) == pre {
+				units <- unit{c, append([]op(nil), ops...), mm.clone()}
+			}
 		})
 	}
 	close(units)
 	wg.Wait()
 	run.Note("enumeration_bounds", bounds)
+	run.Note("cases_per_cache", sessionCases)
 }
 
 // randomCase builds one long sequence; every choice comes from rng.
